@@ -81,7 +81,7 @@ def random_lengths(rng, used, maxlen=12):
     return leaves[:used]
 
 
-def gen_book(rng, t, kind=None, big=False):
+def gen_book(rng, t, kind=None, big=False, sane=False):
     """returns dict describing the book (dim, entries, maptype, used, valid_tree)"""
     maptype = kind if kind is not None else rng.choice([0, 1, 1, 2])
     dim = rng.choice([1, 1, 2, 2, 3, 4, 8]) if maptype else rng.choice([0, 1, 1, 2, 4])
@@ -142,9 +142,15 @@ def gen_book(rng, t, kind=None, big=False):
                 t.w(l - 1, 5, "book.len")
     t.w(maptype, 4, "book.maptype")
     if maptype:
-        t.w(float32_pack(rng.choice([-1.0, -0.5, 0.0, -8.0, 1.0, -1e4, 3.5e7])), 32, "book.qmin")
-        t.w(float32_pack(rng.choice([1.0, 0.5, 0.25, 2.0, 1e3, 9e8])), 32, "book.qdelta")
-        qq = rng.randint(1, 8) if rng.random() < 0.9 else rng.randint(9, 16)
+        if sane:
+            # value ranges an encoder would use: spectral lines of a few units, LSP angles well inside [0, pi]
+            t.w(float32_pack(rng.choice([-1.0, -0.5, 0.0, -4.0, 0.03125, -2.0, 0.0])), 32, "book.qmin")
+            t.w(float32_pack(rng.choice([1.0, 0.5, 0.25, 0.0625, 0.015625, 0.125])), 32, "book.qdelta")
+            qq = rng.randint(1, 5) if rng.random() < 0.9 else rng.randint(1, 5)
+        else:
+            t.w(float32_pack(rng.choice([-1.0, -0.5, 0.0, -8.0, 1.0, -1e4, 3.5e7])), 32, "book.qmin")
+            t.w(float32_pack(rng.choice([1.0, 0.5, 0.25, 2.0, 1e3, 9e8])), 32, "book.qdelta")
+            qq = rng.randint(1, 8) if rng.random() < 0.9 else rng.randint(9, 16)
         t.w(qq - 1, 4, "book.qquant")
         t.w(rng.randint(0, 1), 1, "book.qseq")
         nq = lookup1(entries, dim) if maptype == 1 else entries * dim
@@ -153,7 +159,7 @@ def gen_book(rng, t, kind=None, big=False):
     return {"dim": dim, "entries": entries, "maptype": maptype, "used": used, "valid": valid}
 
 
-def gen_setup(rng, channels, bs0, bs1, t=None, big=False):
+def gen_setup(rng, channels, bs0, bs1, t=None, big=False, sane=False):
     t = t or Trace()
     for c in b"\x05vorbis":
         t.w(c, 8, "preamble")
@@ -166,7 +172,7 @@ def gen_setup(rng, channels, bs0, bs1, t=None, big=False):
             kind = 0          # a scalar book (floor1 classes / residue group)
         elif i == 1:
             kind = rng.choice([1, 2])
-        books.append(gen_book(rng, t, kind, big and i == nbooks - 1))
+        books.append(gen_book(rng, t, kind, big and i == nbooks - 1, sane))
     vq = [i for i, b in enumerate(books) if b["maptype"] and b["dim"] >= 1]
     anyb = list(range(nbooks))
     t.w(0, 6, "times")
